@@ -478,6 +478,47 @@ def judge_ann_strings(oi: int, res: Dict[str, Any]) -> None:
                                                         f'annotation {a} shown as {text!r} ({where})', case))
 
 
+TYPING_IMPORTS = [
+    ('from typing import Literal, Annotated, Optional', ''), ('from typing_extensions import Literal, Annotated\nfrom typing import Optional', ''), ('import typing\nfrom typing import Optional', 'typing.'),
+    ('import typing as t\nfrom typing import Optional', 't.'), ('from typing import *', ''), ('from p.compat import Literal, Annotated\nfrom typing import Optional', ''), ('import p.compat as pc\nfrom typing import Optional', 'pc.'),
+    ('from . import compat\nfrom typing import Optional', 'compat.'), ('from .compat import Literal, Annotated\nfrom typing import Optional', ''), ('from .compat import *\nfrom typing import Optional', ''),
+    ('try:\n    from typing import Literal, Annotated\nexcept ImportError:\n    from typing_extensions import Literal, Annotated\nfrom typing import Optional', ''),
+    ('from third_party_pkg import Literal, Annotated, Optional', ''), ('import third_party_pkg.typing_compat as tc\nfrom typing import Optional', 'tc.'), ('from typing import Optional', ''),
+]
+TYPING_ANNS = ["{P}Literal['r', 'w', 'a']", "Optional[{P}Literal['ok', 'err']]", "{P}Annotated[float, 'meters', 'positive']", "{P}Literal['A | B']", "{P}Annotated['Fwd', 'unit-meta']", "List[{P}Literal['int']]"]
+
+
+def judge_typing_forms(ii: int, res: Dict[str, Any]) -> None:
+    """Literal[...] values and Annotated[...] metadata are strings, not forward references, however the module got hold of the two names"""
+    from pydoctor.templatewriter import pages
+    from pydoctor.stanutils import flatten_text
+    from pydoctor import epydoc2stan
+    imp, P = TYPING_IMPORTS[ii]
+    anns = [a.replace('{P}', P) for a in TYPING_ANNS]
+    src = imp + '\nfrom typing import List\n' + ''.join(f'def f{i}(p: {a}) -> {a}: pass\nv{i}: {a} = 0\n' for i, a in enumerate(anns))
+    compat = 'try:\n    from typing import Literal, Annotated\nexcept ImportError:\n    from typing_extensions import Literal, Annotated\n'
+    s = pd.build_mem([pd.Mod('p', '', is_package=True), pd.Mod('compat', compat, parent='p'), pd.Mod('m', src, parent='p')])
+    for i, a in enumerate(anns):
+        res['evals'] += 1
+        res['nontrivial'].add(core.h('typing-form', ii, a))
+        e = ast.parse(a, mode='eval').body
+        # reference: only the first argument of Annotated is an annotation (a string there is a forward reference)
+        want_src = a.replace("Annotated['Fwd',", 'Annotated[Fwd,')
+        want = norm(ast.parse(want_src, mode='eval').body)
+        case = {'kind': 'typing-form', 'imp': ii, 'ann': a}
+        sig = flatten_text(pages.format_signature(s.allobjects[f'p.m.f{i}']))  # type: ignore
+        var = flatten_text(epydoc2stan.type2stan(s.allobjects[f'p.m.v{i}']) or '')  # type: ignore
+        for where, text in (('parameter', sig[sig.index(':') + 1:sig.rindex(') ->')] if ') ->' in sig else ''), ('return', sig[sig.rindex('->') + 2:] if '->' in sig else ''), ('variable', var)):
+            try:
+                back = norm(ast.parse(text.strip(), mode='eval').body)
+            except (SyntaxError, ValueError):
+                back = 'unparsable'
+            if back != want:
+                how = 'dotted' if P else ('star' if '*' in imp else 'from')
+                res['violations'].append(core.violation(f'typing-form-strings/{where}/{"Literal" if "Literal" in a else "Annotated"}/{how}-import',
+                                                        f'after {imp!r}: annotation {a} shown as {text!r} ({where})', case))
+
+
 # ---------------------------------------------------------------- jobs
 
 def jobs(tier: str) -> Iterable[Tuple[str, Any]]:
@@ -491,6 +532,8 @@ def jobs(tier: str) -> Iterable[Tuple[str, Any]]:
     yield ('seam', ('seam',))
     for oi in range(len(OPS)):
         yield ('annotation-string-operands', ('annstr', oi))
+    for ii in range(len(TYPING_IMPORTS)):
+        yield ('typing-forms-by-import', ('typingforms', ii))
     if tier == 'thorough':
         for pi in range(len(FORMS)):
             for pos in range(FORMS[pi][1]):
@@ -536,6 +579,8 @@ def run_job(job: Any, tier: str) -> Dict[str, Any]:
                         judge_expr(op_apply(o1, a1), res, 'chain')
     elif k == 'annstr':
         judge_ann_strings(job[1], res)
+    elif k == 'typingforms':
+        judge_typing_forms(job[1], res)
     elif k == 'leaves':
         for src in LEAVES:
             judge_expr(src, res, 'leaf')
@@ -560,6 +605,9 @@ def replay(case: Dict[str, Any]) -> List[Dict[str, Any]]:
         judge_block(case['src'], case['linelen'], case['maxlines'], res)
     elif case['kind'] == 'annstr':
         judge_ann_strings(case['op'], res)
+        res['violations'] = [v for v in res['violations'] if v['case']['ann'] == case['ann']]
+    elif case['kind'] == 'typing-form':
+        judge_typing_forms(case['imp'], res)
         res['violations'] = [v for v in res['violations'] if v['case']['ann'] == case['ann']]
     else:
         judge_seam(case['src'], res)
